@@ -9,13 +9,15 @@ from ..cfg import cfg_of, edges_dominate, node_calls
 from ..defuse import def_value, derives_from, reaching_defs, resolve_alias
 from ..esp import UNKNOWN, run_function
 from ..model import Func, Repo, body_nodes, norm, short
-from .common import trace_str
+from .common import stale_bindings, trace_str
 
 
 def check(repo: Repo, rep, tier):
     rep.not_decided = "the escaping of _str_literal_helper per code point: it is delegated to the run-time self-check whose presence on every path is what is decided here"
     string_tokens(repo, rep)
     fmt_taint_fragment(repo, rep)
+    utf8(repo, rep)
+    stale_bindings(repo, rep, None, "e.g. a copied `config` never sees the format-command read in pytest_configure, so code fragments are piped through the wrong formatter path")
 
 
 def string_tokens(repo: Repo, rep):
@@ -152,3 +154,32 @@ def fmt_taint_fragment(repo: Repo, rep):
                         construct="fragment-unvalidated",
                     )
     rep.floor("R-FMT-TAINT/fragment", "format_code call sites in _source_file.py", n, 1)
+
+
+def utf8(repo: Repo, rep):
+    rep.rule(
+        "R-UTF8",
+        "text exchanged with the format-command is converted explicitly with UTF-8 on both sides (bytes in, bytes out): no text=True / universal_newlines / "
+        "locale-default encoding, no errors='replace' - under a non-UTF-8 locale every non-ASCII character of the file would be replaced silently",
+    )
+    f = repo.func("_format.py::format_code")
+    runs = [c for c in body_nodes(f.node) if isinstance(c, ast.Call) and norm(c.func) in ("sp.run", "subprocess.run", "sp.Popen", "subprocess.Popen", "sp.check_output", "subprocess.check_output")]
+    rep.floor("R-UTF8", "subprocess calls in format_code", len(runs), 1)
+    for c in runs:
+        kws = {k.arg: k.value for k in c.keywords if k.arg}
+        textmode = any(k in kws and not (isinstance(kws[k], ast.Constant) and kws[k].value in (False, None)) for k in ("text", "universal_newlines"))
+        enc = kws.get("encoding")
+        lossy = "errors" in kws and isinstance(kws["errors"], ast.Constant) and kws["errors"].value in ("replace", "ignore")
+        inp = kws.get("input")
+        explicit_in = inp is None or (isinstance(inp, ast.Call) and isinstance(inp.func, ast.Attribute) and inp.func.attr == "encode" and inp.args and isinstance(inp.args[0], ast.Constant) and str(inp.args[0].value).lower().replace("-", "") == "utf8")
+        if lossy or (textmode and not (isinstance(enc, ast.Constant) and str(enc.value).lower().replace("-", "") == "utf8")) or (not textmode and not explicit_in):
+            rep.violation("R-UTF8", f, c, "the format-command is fed/read with a locale-dependent or lossy text conversion instead of explicit UTF-8 bytes: under LC_ALL=C every non-ASCII character of the test file is written back as `?`", construct="subprocess-encoding")
+        else:
+            rep.ok("R-UTF8", f, c, "UTF-8 bytes in")
+    decs = [c for c in body_nodes(f.node) if isinstance(c, ast.Call) and isinstance(c.func, ast.Attribute) and c.func.attr == "decode"]
+    for c in decs:
+        ok = c.args and isinstance(c.args[0], ast.Constant) and str(c.args[0].value).lower().replace("-", "") == "utf8" and not any(k.arg == "errors" for k in c.keywords)
+        if ok:
+            rep.ok("R-UTF8", f, c, "UTF-8 bytes out")
+        else:
+            rep.violation("R-UTF8", f, c, f"`{short(c, 40)}` decodes the formatter's output without an explicit strict UTF-8", construct="decode:" + norm(c)[:40])
